@@ -1,0 +1,5 @@
+//go:build !verif
+
+package subscriber
+
+func verifPoint(string) {}
